@@ -350,6 +350,10 @@ func Forall(bound []*Term, body *Term, pats ...[]*Term) *Term {
 	if len(bound) == 0 {
 		return body
 	}
+	// forall s. forall i. P  ==  forall s i. P : one quantifier lets the solver pick a pattern that covers both
+	if body.Op == "forall" && len(pats) == 0 && len(body.Pats) == 0 {
+		return &Term{Op: "forall", Bound: append(append([]*Term{}, bound...), body.Bound...), Args: body.Args, S: SBool}
+	}
 	return &Term{Op: "forall", Bound: bound, Args: []*Term{body}, S: SBool, Pats: pats}
 }
 func Exists(bound []*Term, body *Term) *Term {
